@@ -466,6 +466,14 @@ fn build_ops(s: &str, rep: usize, wide: bool) -> Ops {
     o
 }
 
+/// Source text of the operation batch of a sampled string (used by the rc / arc differential)
+pub fn sample_string_batch(data: &[u32]) -> String {
+    let mut s = crate::pgen::Src::new(data);
+    let n = 1 + s.below(6) as usize;
+    let text: String = (0..n).map(|_| WIDE[s.below(WIDE.len() as u32) as usize]).collect();
+    build_ops(&text, s.below(REPS as u32) as usize, true).script
+}
+
 /// All mismatches of one (string, representation) batch, as (signature, detail)
 fn eval_string(s: &str, rep: usize) -> (usize, Vec<Fail>) {
     let wide = s.chars().any(|c| !ALPHABET.contains(&c));
